@@ -595,3 +595,89 @@ RULE_TEXT = {
     'SB-NORM': rule_norm_divisor.__doc__,
     'SB-COLUMNS': rule_md_dataframe_order.__doc__,
 }
+
+
+def rule_pad_agreement(repo, col):
+    """MetadataMap.from_file pads a short row with exactly as many empty
+    cells as it is shorter than the header (guard and pad count use the same
+    two lengths)."""
+    rule = 'OR-PAD'
+    f = repo.func(PARSE, 'MetadataMap.from_file')
+    found = False
+    for n in ast.walk(f):
+        if isinstance(n, ast.If) and isinstance(n.test, ast.Compare) and \
+                isinstance(n.test.ops[0], ast.Lt):
+            a, b = unparse(n.test.left), unparse(n.test.comparators[0])
+            if not (a.startswith('len(') and b.startswith('len(')):
+                continue
+            for c in ast.walk(n):
+                if isinstance(c, ast.Call) and isinstance(
+                        c.func, ast.Attribute) and c.func.attr == 'extend' \
+                        and c.args and isinstance(c.args[0], ast.BinOp) and \
+                        isinstance(c.args[0].op, ast.Mult):
+                    found = True
+                    cnt = unparse(c.args[0].right).replace(' ', '')
+                    want = ('%s-%s' % (b, a)).replace(' ', '')
+                    col.check(cnt in (want, '(%s)' % want), rule, PARSE,
+                              'MetadataMap.from_file', 'pad-count', c,
+                              'a row shorter than the header is padded by '
+                              'the difference of the two lengths',
+                              'a short row is padded by %s cells although '
+                              'it is %s cells short: the last column(s) of '
+                              'short rows are lost' % (cnt, want))
+    if not found:
+        col.unknown(rule, PARSE, 'MetadataMap.from_file', 'pad-count', f,
+                    'padding idiom not recognised')
+    # ids are the first column, values keyed by header[1:]
+    z = [n for n in ast.walk(f) if isinstance(n, ast.Call) and
+         call_name(n) == 'zip' and len(n.args) == 2]
+    ok = any(unparse(c.args[0]) == 'header[1:]' and
+             unparse(c.args[1]) == 'vals[1:]' for c in z)
+    col.soft(ok, rule, PARSE, 'MetadataMap.from_file', 'column-pairing', f,
+             'column k of the header names column k of each row',
+             'zip(header[1:], vals[1:])')
+
+
+def rule_one_to_many_count(repo, col):
+    """collapse(one_to_many, 'divide'): the divisor recorded per vector
+    counts every mapping the vector yields (the same number of times its
+    counts are added), not the number of distinct groups."""
+    rule = 'SB-ONE2MANY'
+    f = repo.func(TABLE, 'Table.collapse')
+    st = [n for n in body_walk(f) if isinstance(n, ast.Assign) and
+          isinstance(n.targets[0], ast.Subscript) and
+          dotted(n.targets[0].value) == 'md_count']
+    if len(st) != 1:
+        col.unknown(rule, TABLE, 'Table.collapse', 'divisor', f,
+                    'md_count store not found')
+        return
+    v = st[0].value
+    if isinstance(v, ast.Name):
+        incs = [n for n in body_walk(f) if isinstance(n, ast.AugAssign) and
+                dotted(n.target) == v.id and isinstance(n.op, ast.Add) and
+                isinstance(n.value, ast.Constant) and n.value.value == 1]
+        mod = repo.mod(TABLE)
+        cond = False
+        for i in incs:
+            for a in _anc(mod, i):
+                if isinstance(a, (ast.While, ast.For)):
+                    break
+                if isinstance(a, (ast.If, ast.ExceptHandler)):
+                    cond = True
+        col.check(len(incs) == 1 and not cond, rule, TABLE, 'Table.collapse',
+                  'divisor', st[0], 'counts one per mapping yielded',
+                  'the per-vector divisor is not incremented exactly once '
+                  'per mapping yielded')
+    elif isinstance(v, ast.Call) and call_name(v) == 'len':
+        col.bad(rule, TABLE, 'Table.collapse', 'divisor', st[0],
+                'the divisor is %s: the size of a collection of the groups '
+                'seen, which counts a group once however often the vector '
+                'maps to it, while its counts are added once per mapping: '
+                "'divide' mode no longer conserves totals" % unparse(v))
+    else:
+        col.unknown(rule, TABLE, 'Table.collapse', 'divisor', st[0],
+                    'divisor expression not recognised')
+
+
+RULE_TEXT.update({'OR-PAD': rule_pad_agreement.__doc__,
+                  'SB-ONE2MANY': rule_one_to_many_count.__doc__})
